@@ -17,7 +17,8 @@
 (***************************************************************************)
 EXTENDS Integers, Sequences, FiniteSets, TLC
 CONSTANTS Channels, MaxPays, RERANDOMIZE,
-          LEAK     \* spec mutant: the pay message also carries the NEW state's nonce (NoSecretLeak must fail)
+          LEAK,    \* spec mutant: the pay message also carries the NEW state's nonce (NoSecretLeak must fail)
+          KEEPNONCE \* spec mutant: a payment does not draw a fresh nonce for the new state (NoReuse must fail)
 
 VARIABLES stage,     \* [Channels -> "none","requested","ready","started","locked","closed"]
           k,         \* [Channels -> current state index]
@@ -37,6 +38,7 @@ Digits == {<<"s1", "digit", 0, d, 0>> : d \in 0..1} \cup {<<"s2", "digit", 0, d,
 Proof(ch, n) == {<<"prf", ch, n, i>> : i \in 1..2}
 Rnd == IF RERANDOMIZE THEN fresh + 1 ELSE 0
 
+NonceAt(c, i) == IF KEEPNONCE THEN <<"nonce", c, 0>> ELSE <<"nonce", c, i>>
 Init == /\ stage = [c \in Channels |-> "none"] /\ k = [c \in Channels |-> 0]
         /\ seen = Digits /\ fresh = 0 /\ lastMsg = {} /\ allowed = {}
 
@@ -51,10 +53,10 @@ MerchantReplies(c) == /\ stage[c] = "requested"
                       /\ stage' = [stage EXCEPT ![c] = "ready"] /\ UNCHANGED <<k, fresh, lastMsg, allowed>>
 (* pay proof: old nonce, re-randomised + blinded pay token, re-randomised digit signatures, fresh proof atoms *)
 Pay(c) == /\ stage[c] = "ready" /\ k[c] < MaxPays
-          /\ Send({<<"nonce", c, k[c]>>} \cup Sig("token", c, k[c], Rnd, "proofblind") \cup Proof(c, fresh + 1)
+          /\ Send({NonceAt(c, k[c])} \cup Sig("token", c, k[c], Rnd, "proofblind") \cup Proof(c, fresh + 1)
                   \cup {<<"s1", "digit", 0, 1, Rnd>>, <<"s2", "digit", 0, 1, Rnd, "proofblind">>}
                   \cup (IF LEAK THEN {<<"nonce", c, k[c] + 1>>} ELSE {}))
-          /\ allowed' = {<<"nonce", c, k[c]>>}                       \* the old nonce is revealed by design
+          /\ allowed' = {NonceAt(c, k[c])}                       \* the old nonce is revealed by design
           /\ fresh' = fresh + 1
           /\ stage' = [stage EXCEPT ![c] = "started"] /\ UNCHANGED k
 MerchantAllows(c) == /\ stage[c] = "started"
